@@ -5,6 +5,7 @@ use crate::engine::{Ctx, Outcome};
 pub mod c01;
 pub mod c02;
 pub mod c03;
+pub mod c05;
 pub mod c06;
 pub mod c07;
 pub mod c08;
@@ -37,6 +38,10 @@ pub fn lookup(id: &str) -> Option<Prop> {
         "C03" => Prop {
             check: c03::check,
             replay: c03::replay,
+        },
+        "C05" => Prop {
+            check: c05::check,
+            replay: c05::replay,
         },
         "C06" => Prop {
             check: c06::check,
